@@ -175,6 +175,99 @@ def _locked_try(body, what):
     return body[0].body[-1]
 
 
+# ---- methods the model transcribes by hand (coq/model/Graph.v): pinned by AST (comments / docstrings ignored)
+_PINNED = [
+    ('sc3/synth/synthdef.py', 'SynthDef', '_add_ugen', '''def _add_ugen(self, ugen):
+    if not self._rewrite_in_progress:
+        ugen._synth_index = len(self._children)
+        ugen._width_first_antecedents = self._width_first_ugens[:]
+        self._children.append(ugen)'''),
+    ('sc3/synth/synthdef.py', 'SynthDef', '_remove_ugen', '''def _remove_ugen(self, ugen):
+    self._children[ugen._synth_index] = None'''),
+    ('sc3/synth/synthdef.py', 'SynthDef', '_replace_ugen', '''def _replace_ugen(self, a, b):
+    if not isinstance(b, ugn.SynthObject):
+        raise Exception('_replace_ugen assumes a SynthObject')
+    b._width_first_antecedents = a._width_first_antecedents
+    b._descendants = a._descendants
+    b._synth_index = a._synth_index
+    self._children[a._synth_index] = b
+    for item in self._children:
+        if item is not None:
+            for i, input in enumerate(item.inputs):
+                if input is a:
+                    aux = list(item.inputs)
+                    aux[i] = b
+                    item._inputs = tuple(aux)'''),
+    ('sc3/synth/synthdef.py', 'SynthDef', '_index_ugens', '''def _index_ugens(self):
+    for i, ugen in enumerate(self._children):
+        ugen._synth_index = i'''),
+    ('sc3/synth/synthdef.py', 'SynthDef', '_topological_sort', '''def _topological_sort(self):
+    self._init_topo_sort()
+    ugen = None
+    out_stack = []
+    while len(self._available) > 0:
+        ugen = self._available.pop()
+        ugen._arrange(out_stack)
+    self._children = out_stack
+    self._cleanup_topo_sort()'''),
+    ('sc3/synth/synthdef.py', 'SynthDef', '_cleanup_topo_sort', '''def _cleanup_topo_sort(self):
+    for ugen in self._children:
+        ugen._antecedents = set()
+        ugen._descendants = set()
+        ugen._width_first_antecedents = []'''),
+    ('sc3/synth/synthdef.py', 'SynthDef', '_add_constant', '''def _add_constant(self, value):
+    if value not in self._constant_set:
+        self._constant_set.add(value)
+        self._constants[value] = len(self._constants)'''),
+    ('sc3/synth/ugen.py', 'SynthObject', '_make_available', '''def _make_available(self):
+    if not self._antecedents:
+        self._synthdef._available.append(self)'''),
+    ('sc3/synth/ugen.py', 'SynthObject', '_remove_antecedent', '''def _remove_antecedent(self, ugen):
+    self._antecedents.remove(ugen)
+    self._make_available()'''),
+    ('sc3/synth/ugen.py', 'SynthObject', '_arrange', '''def _arrange(self, out_stack):
+    descendants = list(self._descendants)
+    descendants.sort(key=lambda x: x._synth_index)
+    for ugen in reversed(descendants):
+        ugen._remove_antecedent(self)
+    out_stack.append(self)'''),
+    ('sc3/synth/ugen.py', 'SynthObject', '_init_topo_sort', '''def _init_topo_sort(self):
+    for input in self.inputs:
+        if isinstance(input, UGen):
+            if isinstance(input, OutputProxy):
+                ugen = input.source_ugen
+            else:
+                ugen = input
+            if ugen._synthdef is not self._synthdef:
+                raise ValueError(f'{type(self).__name__} input {type(ugen).__name__} was not created by this SynthDef graph function')
+            self._antecedents.add(ugen)
+            ugen._descendants.add(self)
+    for ugen in self._width_first_antecedents:
+        self._antecedents.add(ugen)
+        ugen._descendants.add(self)'''),
+]
+
+
+def _check_pinned(repo):
+    """Every hand-transcribed method of the graph compiler still has the transcribed shape."""
+    changed = []
+    cache = {}
+    for path, cls, name, src in _PINNED:
+        if path not in cache:
+            cache[path] = ast.parse(open(os.path.join(repo, path)).read())
+        fd = None
+        for n in cache[path].body:
+            if isinstance(n, ast.ClassDef) and n.name == cls:
+                for m in n.body:
+                    if isinstance(m, ast.FunctionDef) and m.name == name:
+                        fd = m
+        if fd is None or _dump(_strip_doc(fd)) != _dump(_strip_doc(ast.parse(src).body[0])):
+            changed.append('%s.%s' % (cls, name))
+    if changed:
+        raise Refused('the model transcribes %s by hand and the method%s changed'
+                      % (', '.join(changed), '' if len(changed) == 1 else 's'))
+
+
 def gen_opcodes(repo, gendir):
     errors = []
     out = [HEADER % 'sc3/synth/_specialindex.py, sc3/synth/ugen.py',
@@ -240,6 +333,10 @@ def gen_opcodes(repo, gendir):
                    'Definition sub_guard : bool := %s.\n' % ('true' if shape == _fn(_SRC_SUB_GUARD) else 'false'))
     except (Refused, SyntaxError, OSError) as e:
         errors.append({'target': 'Gen_opcodes', 'error': 'dead code elimination: %s' % e})
+    try:
+        _check_pinned(repo)
+    except (Refused, SyntaxError, OSError) as e:
+        errors.append({'target': 'Gen_opcodes', 'error': 'graph compiler: %s' % e})
     # ---- SynthDesc._read_synthdef2: is the build context reset in a `finally:` clause?
     try:
         tree = ast.parse(open(os.path.join(repo, 'sc3/synth/synthdesc.py')).read())
